@@ -1082,7 +1082,26 @@ def replay_sample(w):
     return ("native", "") if r[0] else ("mismatch", r[1])
 
 
+def direct_binding_verdict(key, fname):
+    """A wrapped function whose public Fortran name has no module procedure is bound straight to its bind(C) interface: the
+    actual argument goes to C as it is.  That is only the documented data path when no argument needs the wrapper's help;
+    an intent(in) `const char *` needs TRIM(arg)//C_NULL_CHAR (the C side reads up to a NUL), a bool needs the
+    logical conversion, a std::string needs its length."""
+    fb = fbuild(key)
+    if fname in fb.functions or fname not in fb.procs:
+        return None
+    f = fb.procs[fname]
+    for a in (f.ast.params or []):
+        p = wrapsym.CxxParam(a)
+        if p.kind() in ("charp", "string", "charpp") or p.tname == "bool":
+            return ("%s has no Fortran procedure (its name is bound directly to the C function) although argument '%s' (%s) "
+                    "needs one: a character actual argument would reach C without its terminating NUL / length" % (fname, p.name, p.tname))
+    return None
+
+
 def resolve_symbolic(w):
+    if w.get("kernel") == "direct-binding":
+        return direct_binding_verdict(tuple(w["build"]), w["function"])
     a = driver.explore(("harness.C01", "make", dict(build_key=w["build"], fname=w["function"], cap=w.get("cap", 3))), nworkers=1)
     for v in a.violations:
         return v["what"]
@@ -1103,6 +1122,7 @@ def main():
     rep = checklib.Report(PID)
     cap = 3 if tier == "quick" else 5
     specs, labels, skipped = [], [], []
+    direct_viol = []
     for key in BUILDS:
         if not os.path.exists(os.path.join(lc.LIBDIR, key[0])):
             continue
@@ -1113,6 +1133,9 @@ def main():
             continue
         for fname in sorted(fb.procs):
             if fname not in fb.functions:
+                dv = direct_binding_verdict(key, fname)
+                if dv:
+                    direct_viol.append({"kernel": "direct-binding", "build": list(key), "function": fname, "what": dv})
                 skipped.append((fname, "no GIMPLE function of that name"))
                 continue
             specs.append(("harness.C01", "make", dict(build_key=list(key), fname=fname, cap=cap)))
@@ -1155,6 +1178,9 @@ def main():
         path = checklib.write_replay(PID, "cex%03d" % i, v)
         rep.violation(path, "%s | %s | function=%s inputs=%s" % (v["what"], "native replay" if how == "native" else "symbolic result (shape outside the native driver)",
                                                                  v["function"], json.dumps(v.get("inputs"))[:200]))
+    for i, v in enumerate(direct_viol):
+        path = checklib.write_replay(PID, "direct%03d" % i, v)
+        rep.violation(path, "%s | read from the regenerated module (no procedure to execute)" % v["what"])
     samples = []
     for cls, lst in sorted(total.samples.items())[:8]:
         samples.append({"function": lst[0]["function"], "inputs": lst[0]["inputs"], "callee": lst[0]["callee"]})
